@@ -583,6 +583,14 @@ def bool_transfer(body, bb, known):
                     val = ("v", vi)                 # Ok(0) -> Continue(0), Err(1) -> Break(1)
                 elif tn == "core::option::Option":
                     val = ("v", 1 - vi)             # None(0) -> Break(1), Some(1) -> Continue(0)
+        elif callee(t).endswith("FromResidual::from_residual"):
+            # `?` failing: the function's own Result/Option is rebuilt from the residual - always Err / None
+            a0 = ((t.get("f") or {}).get("a") or [None])[0]
+            tn = a0.get("n") if isinstance(a0, dict) else None
+            if tn == "core::result::Result":
+                val = ("v", 1)
+            elif tn == "core::option::Option":
+                val = ("v", 0)
         if val is None:
             known.pop(dl, None)
         else:
